@@ -305,6 +305,9 @@ func (v *Validators) PayRewardsV3(height uint64, period int64) (moreRewards *big
 
 	calcReward, safeReward := v.bus.App().Reward()
 	for _, validator := range vals {
+		if validator.GetTotalBipStake().Sign() == 0 {
+			continue // punished in this block: nothing accrued, nothing to split (and no stake to divide by)
+		}
 		candidate := v.bus.Candidates().GetCandidate(validator.PubKey)
 
 		totalReward := big.NewInt(0).Set(validator.GetAccumReward())
@@ -451,6 +454,9 @@ func (v *Validators) PayRewardsV5Fix(height uint64, period int64) (moreRewards *
 	}
 
 	for _, validator := range vals {
+		if validator.GetTotalBipStake().Sign() == 0 {
+			continue // punished in this block: nothing accrued, nothing to split (and no stake to divide by)
+		}
 		candidate := v.bus.Candidates().GetCandidate(validator.PubKey)
 
 		totalReward := big.NewInt(0).Set(validator.GetAccumReward())
@@ -647,6 +653,9 @@ func (v *Validators) PayRewardsV5Bug(height uint64, period int64) (moreRewards *
 	}
 
 	for _, validator := range vals {
+		if validator.GetTotalBipStake().Sign() == 0 {
+			continue // punished in this block: nothing accrued, nothing to split (and no stake to divide by)
+		}
 		candidate := v.bus.Candidates().GetCandidate(validator.PubKey)
 
 		totalReward := big.NewInt(0).Set(validator.GetAccumReward())
@@ -843,6 +852,9 @@ func (v *Validators) PayRewardsV4(height uint64, period int64) (moreRewards *big
 	}
 
 	for _, validator := range vals {
+		if validator.GetTotalBipStake().Sign() == 0 {
+			continue // punished in this block: nothing accrued, nothing to split (and no stake to divide by)
+		}
 		candidate := v.bus.Candidates().GetCandidate(validator.PubKey)
 
 		totalReward := big.NewInt(0).Set(validator.GetAccumReward())
